@@ -231,6 +231,7 @@ Section BRU.
     let d := firstn (limit - length w) data in
     exists (m : bytes) off, length m = limit /\ bru_inv (w ++ d) off /\
       firstn (length w + length d) m = w ++ d /\
+      (off = 0 \/ off + sl <= length w + 1) /\
       let '(c1, v) := bc_get_write_buffer F sizehint c in
       v = Some (length w, limit - length w) /\
       bcnext F sizehint (bc_fill F c1 d) (Some (length d)) = bcres m (length w) (bscan (w ++ d) off) /\
@@ -247,7 +248,7 @@ Section BRU.
       { unfold d. destruct data; [congruence|]. destruct limit; [lia | simpl; discriminate]. }
       assert (Hdle : length d <= limit) by lia.
       split; [rewrite write_at_length; simpl; lia|]. split; [apply bru_inv_0|].
-      split; [exact (write_at_firstn m1 0 d ltac:(simpl; lia))|].
+      split; [exact (write_at_firstn m1 0 d ltac:(simpl; lia))|]. split; [left; reflexivity|].
       unfold bc_get_write_buffer. cbn [bexported mkb bmem bcons binit F bru_framer balloc balready bstart].
       fold m1. cbn [Nat.add]. rewrite Hm1. rewrite Nat.sub_0_r.
       assert (Hz : Nat.eqb limit 0 = false) by (apply Nat.eqb_neq; lia). rewrite Hz.
@@ -265,7 +266,7 @@ Section BRU.
       { unfold d. destruct data; [congruence|]. destruct (limit - length w) eqn:Ev; [lia | simpl; discriminate]. }
       assert (Hdle : length w + length d <= limit) by lia.
       split; [rewrite write_at_length; lia|]. split; [apply bru_inv_app; exact Hinv|].
-      split; [rewrite write_at_firstn by lia; rewrite Hwf; reflexivity|].
+      split; [rewrite write_at_firstn by lia; rewrite Hwf; reflexivity|]. split; [exact (proj1 Hinv)|].
       unfold bc_get_write_buffer. cbn [bexported mkb bmem bcons balready bstart].
       rewrite Nat.add_0_r. rewrite Hm0.
       assert (Hz : Nat.eqb (limit - length w) 0 = false) by (apply Nat.eqb_neq; lia). rewrite Hz.
@@ -328,7 +329,7 @@ Section BRU.
                brep c' (snd (spec_events (w ++ d))) /\ d <> [].
   Proof.
     intros Hc Hne d Hs Hf. pose proof sl_pos' as Hsl.
-    destruct (bcround c w data Hc Hne) as (m & off & Hm & Hinv & Hfm & Hround). fold d in Hinv, Hfm, Hround.
+    destruct (bcround c w data Hc Hne) as (m & off & Hm & Hinv & Hfm & _ & Hround). fold d in Hinv, Hfm, Hround.
     unfold bcstep. destruct (bc_get_write_buffer F sizehint c) as [c1 v].
     destruct Hround as (-> & Hnext & Hdne & Hdl). fold d. rewrite Hnext.
     pose proof (sf_app_l _ _ Hs) as Hs1.
@@ -399,5 +400,306 @@ Section BRU.
       { apply sf_tail_app. exact Hs'. }
       { pose proof (ev_tail_len (w ++ ch)) as Hl. rewrite !app_length in *. lia. }
       rewrite Hd. rewrite (app_assoc w). rewrite (ev_app (w ++ ch) (concat cs)). eexists; split; [reflexivity | exact Hc'].
+  Qed.
+
+  (* ================= round-level view: arbitrary input, no safety hypothesis ================= *)
+
+  (* every fill is what one recv_into wrote: non-empty and at most the exported view *)
+  Inductive fits_run (fuel : nat) : bcstate F -> list bytes -> Prop :=
+  | fr_nil c : fits_run fuel c []
+  | fr_cons c (d : bytes) ds :
+      d <> [] -> (forall w, brep c w -> length w + length d <= limit) ->
+      fits_run fuel (fst (fst (bcstep F sizehint fuel c d))) ds -> fits_run fuel c (d :: ds).
+
+  Lemma bscan_progress data off :
+    bru_inv data off -> data <> [] -> (off = 0 \/ off + sl <= length data) -> length data <= limit ->
+    match bscan data off with
+    | BNeed s start => exists off', s = (length data, off') /\ start = length data /\ bru_inv data off' /\
+                                   find0 sep data = None /\ length data + 2 <= limit
+    | BDone _ rest => length rest < length data
+    | BFail _ rest => length rest < length data
+    | BCrash => False
+    end.
+  Proof.
+    intros Hinv Hne Hoff Hlen. pose proof sl_pos' as Hsl.
+    assert (Hpos : 0 < length data) by (destruct data; [congruence | simpl; lia]).
+    destruct (find0 sep data) as [p|] eqn:E.
+    - rewrite (bscan_found _ _ _ Hinv E).
+      pose proof (find0_Some _ _ _ E) as [Hocc _]. pose proof (occ_bound _ _ _ sep_ne Hocc) as Hb. fold sl in Hb.
+      destruct (dec _); rewrite skipn_length; lia.
+    - destruct (bscan_none _ _ Hinv E) as [Hn Hov].
+      destruct (le_lt_dec (length data + 2) limit) as [Hle|Hgt].
+      + destruct (Hn Hle) as (off' & -> & Hinv'). exists off'.
+        split; [reflexivity|]. split; [reflexivity|]. split; [exact Hinv'|]. split; [reflexivity | exact Hle].
+      + assert (Hscan : sl <= length data - off) by (destruct Hoff as [->|Ho]; lia).
+        rewrite (Hov Hgt Hscan). pose proof (overrun_remainder_len sep data (length data + 1 - sl)). lia.
+  Qed.
+
+  Lemma brep_len c w : brep c w -> w = [] \/ length w + 2 <= limit.
+  Proof. intros [|]; [left; reflexivity | right; assumption]. Qed.
+
+  Lemma bdrain_rep fuel : forall c r,
+    bpend c r -> length r < fuel ->
+    exists c' w' evs, bcdrain F sizehint fuel c = (c', evs) /\ brep c' w' /\ length w' <= length r.
+  Proof.
+    induction fuel as [|f IH]; intros c r Hp Hf; [lia|]. pose proof sl_pos' as Hsl.
+    pose proof (bpend_len _ _ Hp) as Hrl.
+    destruct Hp as [c Hc|m r Hm Hne Hfm].
+    - inversion Hc as [m st Hm|]; subst; [|congruence].
+      cbn [bcdrain]. rewrite bcnext_none_idle. exists (mkb m st 0 None None), [], []. repeat split; [exact Hc | simpl; lia].
+    - cbn [bcdrain]. rewrite (bcnext_none_pend _ _ Hm Hne Hfm Hrl).
+      pose proof (bscan_progress r 0 (bru_inv_0 r) Hne (or_introl eq_refl) Hrl) as Hp.
+      destruct (bscan r 0) as [s start|x rest|e rest|]; cbn [bcres].
+      + destruct Hp as (off' & -> & -> & Hinv' & Hnf & Hb).
+        exists (mkb (Some m) (length r) 0 None (Some (length r, off'))), r, []. repeat split; [|lia].
+        apply brep_wait; try assumption. intros _; right; right; exact I.
+      + assert (Hp1 : bpend (bc_save_remainder F sizehint (mkb (Some m) 0 0 None None) rest) rest)
+          by (apply save_remainder; [exact Hm | lia]).
+        destruct (IH _ rest Hp1) as (c' & w' & evs & Hd & Hc' & Hl); [lia|].
+        rewrite Hd. exists c', w', (RPkt x :: evs). repeat split; [assumption | lia].
+      + assert (Hp1 : bpend (bc_save_remainder F sizehint (mkb (Some m) 0 0 None None) rest) rest)
+          by (apply save_remainder; [exact Hm | lia]).
+        destruct (IH _ rest Hp1) as (c' & w' & evs & Hd & Hc' & Hl); [lia|].
+        rewrite Hd. exists c', w', (RErr e :: evs). repeat split; [assumption | lia].
+      + contradiction.
+  Qed.
+
+  (* what one fitting round computes, as a function of the bytes held before and the fill *)
+  Lemma bcstep_fit fuel c w (d : bytes) :
+    brep c w -> d <> [] -> length w + length d <= limit ->
+    exists (m : bytes) off, length m = limit /\ bru_inv (w ++ d) off /\ (off = 0 \/ off + sl <= length (w ++ d)) /\
+      firstn (length (w ++ d)) m = w ++ d /\
+      bcstep F sizehint fuel c d =
+        (let '(c1, r) := bcres m (length w) (bscan (w ++ d) off) in
+         match r with
+         | RStop => (c1, [], length d)
+         | _ => let '(c2, rs) := bcdrain F sizehint fuel c1 in (c2, r :: rs, length d)
+         end).
+  Proof.
+    intros Hc Hne Hfit.
+    destruct (bcround c w d Hc Hne) as (m & off & Hm & Hinv & Hfm & Hoff & Hround).
+    assert (Hd : firstn (limit - length w) d = d) by (apply firstn_all2; lia).
+    rewrite Hd in *. exists m, off. split; [exact Hm|]. split; [exact Hinv|].
+    unfold bcstep. destruct (bc_get_write_buffer F sizehint c) as [c1 v].
+    destruct Hround as (-> & Hnext & Hdne & Hdl). rewrite Hd. rewrite Hnext.
+    split.
+    - assert (0 < length d) by (destruct d; [congruence | simpl; lia]).
+      destruct Hoff as [->|Ho]; [left; reflexivity | right; rewrite app_length; lia].
+    - split; [rewrite app_length; exact Hfm|].
+      destruct (bcres m (length w) (bscan (w ++ d) off)) as [c1' r]. destruct r; reflexivity.
+  Qed.
+
+  Lemma overrun_remainder_short (b : bytes) :
+    sl <= length b ->
+    let t := overrun_remainder sep b (length b + 1 - sl) in length t < sl /\ find0 sep t = None /\ safe t.
+  Proof.
+    intros Hl t. pose proof sl_pos' as Hsl.
+    pose proof (overrun_remainder_len sep b (length b + 1 - sl)) as Hlen. fold t in Hlen.
+    assert (Ht : length t < sl) by lia.
+    assert (Hn : find0 sep t = None).
+    { apply find0_occ_none. intros j. destruct (occ sep t j) eqn:E; [|reflexivity].
+      apply (occ_bound _ _ _ sep_ne) in E. fold sl in E. lia. }
+    split; [exact Ht|]. split; [exact Hn|]. apply safe_end; [exact Hn | fold sl; lia].
+  Qed.
+
+  (* classification of one fitting round on a drained consumer, for arbitrary input *)
+  Lemma bcstep_outcome fuel c w (d : bytes) :
+    brep c w -> d <> [] -> length w + length d <= limit -> length (w ++ d) < fuel ->
+    let b := w ++ d in
+    (find0 sep b = None /\ length b + 2 <= limit /\
+       exists c', bcstep F sizehint fuel c d = (c', [], length d) /\ brep c' b) \/
+    (find0 sep b = None /\ limit < length b + 2 /\
+       exists c', bcstep F sizehint fuel c d = (c', [RErr ELimit], length d) /\
+                  brep c' (overrun_remainder sep b (length b + 1 - sl))) \/
+    (exists p c1, find0 sep b = Some p /\ bpend c1 (skipn (p + sl) b) /\
+       bcstep F sizehint fuel c d =
+         (let '(c2, rs) := bcdrain F sizehint fuel c1 in (c2, frame_event b p :: rs, length d))).
+  Proof.
+    intros Hc Hne Hfit Hf b. pose proof sl_pos' as Hsl. change (length (w ++ d)) with (length b) in Hf.
+    destruct (bcstep_fit fuel c w d Hc Hne Hfit) as (m & off & Hm & Hinv & Hoff & Hfm & Hstep). fold b in Hinv, Hoff, Hfm, Hstep.
+    assert (Hbne : b <> []) by (unfold b; destruct w; [simpl; exact Hne | discriminate]).
+    assert (Hbl : length b <= limit) by (unfold b; rewrite app_length; lia).
+    destruct (find0 sep b) as [p|] eqn:E.
+    - right; right.
+      pose proof (find0_Some _ _ _ E) as [Hocc _]. pose proof (occ_bound _ _ _ sep_ne Hocc) as Hb. fold sl in Hb.
+      exists p, (bc_save_remainder F sizehint (mkb (Some m) (length w) 0 None None) (skipn (p + sl) b)).
+      split; [reflexivity|]. split; [apply save_remainder; [exact Hm | rewrite skipn_length; lia]|].
+      rewrite Hstep. rewrite (bscan_found _ _ _ Hinv E). unfold SpecDecode.frame_event. fold sl.
+      destruct (dec _); reflexivity.
+    - destruct (bscan_none _ _ Hinv E) as [Hn Hov].
+      destruct (le_lt_dec (length b + 2) limit) as [Hle|Hgt].
+      + left. split; [reflexivity|]. split; [exact Hle|].
+        destruct (Hn Hle) as (off' & Hscan & Hinv'). rewrite Hstep, Hscan. cbn [bcres].
+        eexists; split; [reflexivity|]. apply brep_wait; try assumption. intros _; right; right; exact I.
+      + right; left. split; [reflexivity|]. split; [exact Hgt|].
+        assert (Hscan : sl <= length b - off) by (destruct Hoff as [->|Ho]; lia).
+        rewrite Hstep, (Hov Hgt Hscan). cbn [bcres].
+        destruct (overrun_remainder_short b ltac:(lia)) as (Htl & Htn & Hts).
+        set (t := overrun_remainder sep b (length b + 1 - sl)) in *.
+        assert (Hp : bpend (bc_save_remainder F sizehint (mkb (Some m) (length w) 0 None None) t) t)
+          by (apply save_remainder; [exact Hm | lia]).
+        destruct (bdrain_spec fuel _ t Hp Hts) as (c' & Hd & Hc'); [lia|].
+        rewrite (ev_none _ Htn) in Hd, Hc'. cbn [fst snd] in Hd, Hc'. rewrite Hd.
+        exists c'. split; [reflexivity | exact Hc'].
+  Qed.
+
+  Lemma fits_step fuel c w (d : bytes) ds c' evs n :
+    fits_run fuel c (d :: ds) -> brep c w -> bcstep F sizehint fuel c d = (c', evs, n) ->
+    d <> [] /\ length w + length d <= limit /\ fits_run fuel c' ds.
+  Proof.
+    intros Hfr Hc Hs. inversion Hfr as [|? ? ? Hne Hfit Hrest]; subst.
+    rewrite Hs in Hrest. cbn [fst] in Hrest. split; [exact Hne|]. split; [apply Hfit; exact Hc | exact Hrest].
+  Qed.
+
+  (* held bound, buffer-filling path: whatever arrives, after each round the consumer holds a separator-free tail
+     of at most limit - 2 bytes (or nothing); the buffer itself is the [limit]-byte allocation *)
+  Theorem bcfills_rep fuel ds : forall c w,
+    brep c w -> fits_run fuel c ds -> length (w ++ concat ds) < fuel ->
+    exists c' w' evs, bcfills F sizehint fuel c ds = (c', evs) /\ brep c' w' /\ length w' <= length (w ++ concat ds).
+  Proof.
+    induction ds as [|d ds IH]; intros c w Hc Hfr Hf.
+    - cbn [bcfills concat]. exists c, w, []. repeat split; [exact Hc | rewrite app_nil_r; lia].
+    - cbn [bcfills concat] in *. rewrite app_assoc in Hf. rewrite !app_length in Hf.
+      inversion Hfr as [|? ? ? Hne Hfit _]; subst. specialize (Hfit w Hc).
+      destruct (bcstep_outcome fuel c w d Hc Hne Hfit) as [(_ & _ & c1 & Hs & Hc1) | [(_ & _ & c1 & Hs & Hc1) | (p & c1 & E & Hp & Hs)]];
+        [rewrite app_length; lia | | |].
+      + destruct (fits_step _ _ _ _ _ _ _ _ Hfr Hc Hs) as (_ & _ & Hfr').
+        destruct (IH c1 (w ++ d) Hc1 Hfr') as (c' & w' & evs & Hd & Hc' & Hl); [rewrite !app_length; lia|].
+        rewrite Hs, Hd. exists c', w', ([] ++ evs). repeat split; [exact Hc'|]. rewrite app_assoc. exact Hl.
+      + destruct (fits_step _ _ _ _ _ _ _ _ Hfr Hc Hs) as (_ & _ & Hfr').
+        pose proof (overrun_remainder_len sep (w ++ d) (length (w ++ d) + 1 - sl)) as Hl0.
+        destruct (IH c1 _ Hc1 Hfr') as (c' & w' & evs & Hd & Hc' & Hl); [rewrite !app_length in *; lia|].
+        rewrite Hs, Hd. exists c', w', ([RErr ELimit] ++ evs). repeat split; [exact Hc'|].
+        rewrite !app_length in *. lia.
+      + destruct (bdrain_rep fuel c1 _ Hp) as (c2 & w2 & evs2 & Hd2 & Hc2 & Hl2); [rewrite skipn_length, app_length; lia|].
+        rewrite Hd2 in Hs.
+        destruct (fits_step _ _ _ _ _ _ _ _ Hfr Hc Hs) as (_ & _ & Hfr').
+        rewrite skipn_length in Hl2.
+        destruct (IH c2 w2 Hc2 Hfr') as (c' & w' & evs & Hd & Hc' & Hl); [rewrite !app_length in *; lia|].
+        rewrite Hs, Hd. eexists c', w', _. repeat split; [exact Hc'|]. rewrite !app_length in *. lia.
+  Qed.
+
+  (* unterminated data reaching limit - 1 bytes always raises the limit error, whatever the fills *)
+  Theorem overrun_raised_rounds fuel ds : forall c w,
+    brep c w -> fits_run fuel c ds -> find0 sep (w ++ concat ds) = None ->
+    limit < length (w ++ concat ds) + 2 -> length (w ++ concat ds) < fuel ->
+    exists c' evs, bcfills F sizehint fuel c ds = (c', RErr ELimit :: evs).
+  Proof.
+    induction ds as [|d ds IH]; intros c w Hc Hfr Hnf Hlen Hf.
+    - cbn [concat] in Hlen. rewrite app_nil_r in Hlen. destruct (brep_len _ _ Hc) as [->|Hb]; [|lia].
+      simpl in Hlen. pose proof sl_pos'. lia.
+    - cbn [bcfills concat] in *. rewrite app_assoc in Hnf, Hlen, Hf.
+      inversion Hfr as [|? ? ? Hne Hfit _]; subst. specialize (Hfit w Hc).
+      pose proof (find0_none_app_l _ _ _ Hnf) as E.
+      destruct (bcstep_outcome fuel c w d Hc Hne Hfit) as [(_ & _ & c1 & Hs & Hc1) | [(_ & _ & c1 & Hs & Hc1) | (p & c1 & E' & _)]];
+        [rewrite !app_length in *; lia | | | congruence].
+      + destruct (fits_step _ _ _ _ _ _ _ _ Hfr Hc Hs) as (_ & _ & Hfr').
+        destruct (IH c1 (w ++ d) Hc1 Hfr' Hnf Hlen Hf) as (c' & evs & Hd).
+        rewrite Hs, Hd. exists c', evs. reflexivity.
+      + rewrite Hs. destruct (bcfills F sizehint fuel c1 ds) as [c' evs]. exists c', evs. reflexivity.
+  Qed.
+
+  (* safe streams, round level *)
+  Theorem bcfills_spec fuel ds : forall c w,
+    brep c w -> fits_run fuel c ds -> safe (w ++ concat ds) -> length (w ++ concat ds) < fuel ->
+    exists c', bcfills F sizehint fuel c ds = (c', fst (spec_events (w ++ concat ds))) /\
+               brep c' (snd (spec_events (w ++ concat ds))).
+  Proof.
+    induction ds as [|d ds IH]; intros c w Hc Hfr Hs Hf.
+    - cbn [bcfills concat]. rewrite app_nil_r. rewrite (ev_none _ (brep_nosep _ _ Hc)). eexists; split; [reflexivity | exact Hc].
+    - cbn [bcfills concat] in *.
+      inversion Hfr as [|? ? ? Hne Hfit _]; subst. specialize (Hfit w Hc).
+      assert (Hs' : safe ((w ++ d) ++ concat ds)) by (rewrite <- app_assoc; exact Hs).
+      assert (Hd : firstn (limit - length w) d = d) by (apply firstn_all2; lia).
+      destruct (bcstep_spec fuel c w d (concat ds) Hc Hne) as (c1 & Hstep & Hc1 & _);
+        [rewrite Hd; exact Hs' | rewrite Hd; rewrite !app_length in *; lia |].
+      rewrite Hd in Hstep, Hc1.
+      destruct (fits_step _ _ _ _ _ _ _ _ Hfr Hc Hstep) as (_ & _ & Hfr').
+      destruct (IH c1 _ Hc1 Hfr') as (c' & Hdel & Hc').
+      { apply sf_tail_app. exact Hs'. }
+      { pose proof (ev_tail_len (w ++ d)) as Hl. rewrite !app_length in *. lia. }
+      rewrite Hstep, Hdel. rewrite (app_assoc w). rewrite (ev_app (w ++ d) (concat ds)).
+      eexists; split; [reflexivity | exact Hc'].
+  Qed.
+
+  (* resynchronisation, buffer-filling path: a frame of any size followed by its terminator and a stream inside the
+     band: some junk events (a limit error when the frame does not fit the buffer), then exactly the events of the rest *)
+  Theorem resync_rounds fuel ds : forall c w (rest : bytes) q,
+    brep c w -> fits_run fuel c ds -> resync_at sep (w ++ concat ds) rest q -> safe rest ->
+    length (w ++ concat ds) < fuel ->
+    exists c' junk, bcfills F sizehint fuel c ds = (c', junk ++ fst (spec_events rest)) /\
+                    brep c' (snd (spec_events rest)) /\ junk <> [] /\ (limit < q + sl -> In (RErr ELimit) junk).
+  Proof.
+    induction ds as [|d ds IH]; intros c w rest q Hc Hfr HJ Hs Hf; pose proof sl_pos' as Hsl.
+    - cbn [concat] in HJ. rewrite app_nil_r in HJ. destruct HJ as [Hq _]. rewrite (brep_nosep _ _ Hc) in Hq. discriminate.
+    - cbn [bcfills concat] in *. rewrite app_assoc in HJ, Hf.
+      inversion Hfr as [|? ? ? Hne Hfit _]; subst. specialize (Hfit w Hc).
+      destruct HJ as [Hq Hrest].
+      destruct (bcstep_outcome fuel c w d Hc Hne Hfit) as [(E & Hb & c1 & Hstep & Hc1) | [(E & Hb & c1 & Hstep & Hc1) | (p & c1 & E & Hp & Hstep)]];
+        [rewrite !app_length in *; lia | | |].
+      + (* still accumulating *)
+        destruct (fits_step _ _ _ _ _ _ _ _ Hfr Hc Hstep) as (_ & _ & Hfr').
+        destruct (IH c1 (w ++ d) rest q Hc1 Hfr' (conj Hq Hrest) Hs Hf) as (c' & junk & Hd & Hc' & Hj1 & Hj2).
+        rewrite Hstep, Hd. exists c', junk. cbn [app]. repeat split; assumption.
+      + (* buffer (nearly) full without separator: limit error, keep the longest separator-prefix suffix *)
+        destruct (fits_step _ _ _ _ _ _ _ _ Hfr Hc Hstep) as (_ & _ & Hfr').
+        destruct (overrun_tail sep L keep_end dec sep_ne (w ++ d) (concat ds) rest q E) as (Htl & _ & q' & HJ');
+          [fold sl; rewrite !app_length in *; lia | split; assumption |].
+        fold sl in Htl, HJ'.
+        destruct (IH c1 _ rest q' Hc1 Hfr' HJ' Hs) as (c' & junk & Hd & Hc' & _ & _);
+          [rewrite !app_length in *; lia|].
+        rewrite Hstep, Hd. exists c', (RErr ELimit :: junk). cbn [app].
+        split; [reflexivity|]. split; [exact Hc'|]. split; [discriminate | intros _; left; reflexivity].
+      + (* the terminator is in the buffer: the skipped frame ends here *)
+        pose proof (find0_app_l _ _ (concat ds) _ E) as E'. assert (p = q) by congruence. subst p.
+        pose proof (find0_Some _ _ _ E) as [Hocc _]. pose proof (occ_bound _ _ _ sep_ne Hocc) as Hbd. fold sl in Hbd.
+        rewrite skipn_app_le in Hrest by (fold sl; lia). fold sl in Hrest.
+        assert (Hsr : safe (skipn (q + sl) (w ++ d))) by (apply (sf_app_l _ (concat ds)); rewrite Hrest; exact Hs).
+        destruct (bdrain_spec fuel c1 _ Hp Hsr) as (c2 & Hd2 & Hc2); [rewrite skipn_length; rewrite !app_length in *; lia|].
+        rewrite Hd2 in Hstep.
+        destruct (fits_step _ _ _ _ _ _ _ _ Hfr Hc Hstep) as (_ & _ & Hfr').
+        destruct (bcfills_spec fuel ds c2 _ Hc2 Hfr') as (c3 & Hdel & Hc3).
+        { apply sf_tail_app. rewrite Hrest. exact Hs. }
+        { pose proof (ev_tail_len (skipn (q + sl) (w ++ d))) as Hl. rewrite skipn_length in Hl. rewrite !app_length in *. lia. }
+        rewrite Hstep, Hdel.
+        assert (Hev : fst (spec_events (skipn (q + sl) (w ++ d))) ++
+                      fst (spec_events (snd (spec_events (skipn (q + sl) (w ++ d))) ++ concat ds)) = fst (spec_events rest) /\
+                      snd (spec_events (snd (spec_events (skipn (q + sl) (w ++ d))) ++ concat ds)) = snd (spec_events rest)).
+        { rewrite <- Hrest. rewrite (ev_app (skipn (q + sl) (w ++ d)) (concat ds)). split; reflexivity. }
+        destruct Hev as [Hev1 Hev2]. rewrite Hev2 in Hc3.
+        exists c3, [frame_event (w ++ d) q]. cbn [app]. rewrite <- Hev1.
+        split; [reflexivity|]. split; [exact Hc3|]. split; [discriminate|].
+        intros Hbig. rewrite !app_length in *. lia.
+  Qed.
+
+  Lemma view_len_brep c w : brep c w -> view_len F sizehint c = limit - length w.
+  Proof.
+    intros Hc. destruct (bcround c w [0%N] Hc ltac:(discriminate)) as (m & off & _ & _ & _ & _ & Hround).
+    unfold view_len. destruct (bc_get_write_buffer F sizehint c) as [c1 v]. destruct Hround as (-> & _). reflexivity.
+  Qed.
+
+  Lemma fills_fit_run fuel ds : forall c w,
+    brep c w -> length (w ++ concat ds) < fuel -> fills_fit F sizehint fuel c ds -> fits_run fuel c ds.
+  Proof.
+    induction ds as [|d ds IH]; intros c w Hc Hf Hfit; [constructor|].
+    cbn [fills_fit concat] in *. destruct Hfit as (Hne & Hlen & Hrest).
+    rewrite (view_len_brep _ _ Hc) in Hlen.
+    assert (Hwl : w = [] \/ length w + 2 <= limit) by (apply brep_len with c; exact Hc).
+    assert (Hfitw : length w + length d <= limit) by (pose proof sl_pos'; destruct Hwl as [->|]; simpl in *; lia).
+    constructor; [exact Hne | |].
+    - intros w0 Hc0.
+      assert (w0 = w).
+      { destruct Hc as [m st Hm|m off w1]; inversion Hc0; subst; try reflexivity; congruence. }
+      subst. exact Hfitw.
+    - rewrite app_assoc in Hf. rewrite !app_length in Hf.
+      destruct (bcstep_outcome fuel c w d Hc Hne Hfitw) as [(_ & _ & c1 & Hs & Hc1) | [(_ & _ & c1 & Hs & Hc1) | (p & c1 & E & Hp & Hs)]];
+        [rewrite app_length; lia | | |].
+      + rewrite Hs in *. cbn [fst] in *. apply (IH c1 (w ++ d) Hc1); [rewrite !app_length; lia | exact Hrest].
+      + rewrite Hs in *. cbn [fst] in *.
+        pose proof (overrun_remainder_len sep (w ++ d) (length (w ++ d) + 1 - sl)) as Hl0.
+        apply (IH c1 _ Hc1); [rewrite !app_length in *; lia | exact Hrest].
+      + destruct (bdrain_rep fuel c1 _ Hp) as (c2 & w2 & evs2 & Hd2 & Hc2 & Hl2); [rewrite skipn_length, app_length; lia|].
+        rewrite Hd2 in Hs. rewrite Hs in *. cbn [fst] in *. rewrite skipn_length in Hl2.
+        apply (IH c2 w2 Hc2); [rewrite !app_length in *; lia | exact Hrest].
   Qed.
 End BRU.
